@@ -28,6 +28,8 @@ def plan(tier, seed):
             words += [[a, b, c] for a in A for b in A for c in A][::5]
             words += ed.histories(D, rng, 5, 4000)
             words += ed.histories(D, rng, 9, 1000)
+        sc = ed.scenarios(D, rng)
+        words += sc if tier != "quick" else rng.sample(sc, min(len(sc), 150))
         for w in words:
             jobs.append((d, w, rng.random() < 0.25))
     return jobs
